@@ -47,6 +47,10 @@ def run(repo, tier) -> Result:
     n_names = check_namespace("C13", res, repo, cas)
     check_writes("C13", res, repo, cas)
     check_own("C13", res, repo)
+    # indicators on different managers of one Hexital share the candlestick-type instance: it must not carry state from one list to another
+    from ..framework_rules import check_converter_stateless
+
+    check_converter_stateless("C13", res, repo)
     check_manager_purge("C13", res, repo)
     check_hexital_purge("C13", res, repo)
     # indicators on one timeframe share a manager: its configuration must come from the Hexital, not from whichever indicator creates it
